@@ -301,6 +301,11 @@ impl Script {
         }
         self
     }
+    /// oracle 1 stacks carry no hints (the macro-level MAX_LEVEL shortcut is C08's)
+    fn without_hint(mut self) -> Self {
+        self.hint = None;
+        self
+    }
     fn rejects(&self, class: u32) -> bool {
         self.rej >> class & 1 == 1
     }
@@ -663,6 +668,32 @@ struct FiltSpec {
     nest: Vec<FW>,
 }
 
+/// `inner.and_then(outer)` trees of recording layers, attached with ONE `.with()`.  Leaves are
+/// numbered in the order the property demands for notifications (inner before outer).
+#[derive(Clone, Debug, PartialEq)]
+enum Tree {
+    Leaf(u8, Script),
+    /// Node(inner, outer) = `inner.and_then(outer)`
+    Node(Box<Tree>, Box<Tree>),
+}
+impl Tree {
+    fn leaves(&self, out: &mut Vec<(u8, Script)>) {
+        match self {
+            Tree::Leaf(i, s) => out.push((*i, s.clone())),
+            Tree::Node(a, b) => {
+                a.leaves(out);
+                b.leaves(out);
+            }
+        }
+    }
+    fn show(&self, used: &[u32]) -> String {
+        match self {
+            Tree::Leaf(i, s) => format!("L{i}[{}]", s.code(used)),
+            Tree::Node(a, b) => format!("({}).and_then({})", a.show(used), b.show(used)),
+        }
+    }
+}
+
 #[derive(Clone, Debug, PartialEq)]
 struct Elem {
     /// index of the recording layer (and of its filter); absent elements carry 255
@@ -673,20 +704,31 @@ struct Elem {
     nest: Vec<LW>,
     filt: Option<FiltSpec>,
     absent: Option<Absent>,
+    /// the element is an and_then tree of recording layers (idx/sc unused)
+    tree: Option<Tree>,
 }
 impl Elem {
     fn layer(idx: u8, sc: Script) -> Self {
-        Elem { idx, sc, bare: true, nest: vec![], filt: None, absent: None }
+        Elem { idx, sc, bare: true, nest: vec![], filt: None, absent: None, tree: None }
     }
     fn absent(a: Absent) -> Self {
-        Elem { idx: 255, sc: Script::plain(), bare: false, nest: vec![], filt: None, absent: Some(a) }
+        Elem { idx: 255, sc: Script::plain(), bare: false, nest: vec![], filt: None, absent: Some(a), tree: None }
+    }
+    fn tree(t: Tree) -> Self {
+        Elem { idx: 254, sc: Script::plain(), bare: false, nest: vec![], filt: None, absent: None, tree: Some(t) }
     }
     fn is_plain_bare(&self) -> bool {
-        self.bare && self.nest.is_empty() && self.filt.is_none() && self.absent.is_none()
+        self.bare && self.nest.is_empty() && self.filt.is_none() && self.absent.is_none() && self.tree.is_none()
+    }
+    fn is_plain_tree(&self) -> bool {
+        self.tree.is_some() && self.nest.is_empty() && self.filt.is_none() && self.absent.is_none()
     }
     fn show(&self, used: &[u32]) -> String {
         if let Some(a) = self.absent {
             return a.name().to_string();
+        }
+        if let Some(t) = &self.tree {
+            return t.show(used);
         }
         let mut s = format!("L{}[{}]", self.idx, self.sc.code(used));
         if !self.bare {
@@ -738,6 +780,27 @@ impl StackSpec {
     }
     fn all_bare(&self) -> bool {
         self.cwrap.is_empty() && self.elems.iter().all(|e| e.is_plain_bare())
+    }
+    /// oracle 1 applies: bare layers and plain and_then trees only
+    fn o1_shape(&self) -> bool {
+        self.cwrap.is_empty() && self.elems.iter().all(|e| e.is_plain_bare() || e.is_plain_tree())
+    }
+    /// recording layers in the order notifications must reach them, with the index of the
+    /// stack element they belong to
+    fn layers(&self) -> Vec<(u8, Script, usize)> {
+        let mut v = vec![];
+        for (k, e) in self.elems.iter().enumerate() {
+            match &e.tree {
+                Some(t) => {
+                    let mut l = vec![];
+                    t.leaves(&mut l);
+                    v.extend(l.into_iter().map(|(i, s)| (i, s, k)));
+                }
+                None if e.absent.is_none() => v.push((e.idx, e.sc.clone(), k)),
+                None => {}
+            }
+        }
+        v
     }
 }
 
@@ -809,7 +872,23 @@ where
     });
     mk_common::<C>(e, fin, filtered)
 }
+fn mk_tree<C: Collect + 'static>(t: &Tree, fin: &Fin) -> BoxDynL<C> {
+    match t {
+        Tree::Leaf(i, sc) => Box::new(RecLayer { who: Who::Layer(*i), log: fin.log.clone(), sc: sc.clone() }),
+        Tree::Node(a, b) => {
+            let (inner, outer) = (mk_tree::<C>(a, fin), mk_tree::<C>(b, fin));
+            Box::new(Subscribe::<C>::and_then(inner, outer))
+        }
+    }
+}
 fn mk_common<C: Collect + 'static>(e: &Elem, fin: &Fin, pre: Option<BoxDynL<C>>) -> BoxDynL<C> {
+    if let Some(t) = &e.tree {
+        let mut l = mk_tree::<C>(t, fin);
+        for w in &e.nest {
+            l = wrap_l(l, *w);
+        }
+        return l;
+    }
     match e.absent {
         Some(Absent::NoneLayer) => return Box::new(None::<BoxDynL<C>>),
         Some(Absent::EmptyVec) => return Box::new(Vec::<BoxDynL<C>>::new()),
@@ -1340,23 +1419,45 @@ enum H {
 const NOTIF: [M; 9] = [M::NewSpan, M::Record, M::Follows, M::Event, M::Enter, M::Exit, M::Close, M::IdChange, M::RegDispatch];
 
 fn oracle1(spec: &StackSpec, classes: &[u32], ops: &[Op], run: &RunOut, st: &mut Stats) -> Vec<Problem> {
-    let n = spec.elems.len();
+    let layers = spec.layers();
+    let n = layers.len();
     let idb = spec.base == BaseKind::Id;
-    let sc: Vec<&Script> = spec.elems.iter().map(|e| &e.sc).collect();
+    let sc: Vec<&Script> = layers.iter().map(|l| &l.1).collect();
     let codes: Vec<String> = sc.iter().map(|s| s.code(classes)).collect();
-    let shape = format!("{:?}|n{n}|{}", spec.base, codes.join(","));
+    let has_tree = spec.elems.iter().any(|e| e.tree.is_some());
+    let tree_shape = if has_tree { format!("|{}", spec.show(&[])) } else { String::new() };
+    let shape = format!("{:?}|n{n}|{}{}", spec.base, codes.join(","), tree_shape);
     let mut expected_seq: Vec<Who> = vec![];
     if idb {
         expected_seq.push(Who::Base);
     }
-    for i in 0..n {
-        expected_seq.push(Who::Layer(i as u8));
+    for l in &layers {
+        expected_seq.push(Who::Layer(l.0));
     }
+    // stack element each recorder belongs to (base: -1); a sequence "collapsed" to elements shows
+    // whether a deviation is confined to the inside of and_then trees
+    let elem_of = |w: &Who| -> i64 {
+        match w {
+            Who::Layer(i) => layers.iter().find(|l| l.0 == *i).map(|l| l.2 as i64).unwrap_or(-2),
+            _ => -1,
+        }
+    };
+    let collapse = |v: &[Who]| -> Vec<i64> {
+        let mut out: Vec<i64> = vec![];
+        for w in v {
+            let e = elem_of(w);
+            if out.last() != Some(&e) {
+                out.push(e);
+            }
+        }
+        out
+    };
     let any_rej = |class: u32| sc.iter().any(|s| s.rejects(class));
     let any_never = |class: u32| sc.iter().any(|s| s.interest(class) == 0);
     let any_veto = |opid: u64| sc.iter().any(|s| s.vetoes_event(opid));
 
     let mut probs: Vec<Problem> = vec![];
+    let mut f31: Vec<Problem> = vec![];
     let mut hid: Vec<H> = vec![H::No; nhandles(ops)];
     let mut entered: Vec<usize> = vec![];
     let mut spans_created = 0usize;
@@ -1397,6 +1498,19 @@ fn oracle1(spec: &StackSpec, classes: &[u32], ops: &[Op], run: &RunOut, st: &mut
                 None => groups.push((key, vec![(pos, e.who)])),
             }
         }
+        if seg.kind == SegKind::Build && has_tree {
+            // on_subscribe is a build-time `&mut` callback outside the property's list: counted only
+            let order: Vec<Who> = seg.ents.iter().filter(|e| e.m == M::OnSubscribe).map(|e| e.who).collect();
+            let want: Vec<Who> = layers.iter().map(|l| Who::Layer(l.0)).collect();
+            let k = if order == want {
+                "tree_on_subscribe_inner_before_outer"
+            } else if order.len() == want.len() && want.iter().all(|w| order.contains(w)) {
+                "tree_on_subscribe_each_once_other_order"
+            } else {
+                "tree_on_subscribe_not_each_once"
+            };
+            st.count(k, 1);
+        }
         let mut prob = |fid: Option<&'static str>, m: M, what: String| {
             probs.push(Problem { fid, cell: format!("(method={}, Layered stack)", m.name(Who::Layer(0))), what, seg: si });
         };
@@ -1410,7 +1524,23 @@ fn oracle1(spec: &StackSpec, classes: &[u32], ops: &[Op], run: &RunOut, st: &mut
                 st.count(&format!("o1_occurrences_{}", m.name(Who::Layer(0))), 1);
                 st.sig(&format!("o1|{m:?}|{shape}"));
                 st.cells.insert(format!("{} x Layered", m.name(Who::Layer(0))));
-                if whos != expected_seq {
+                let all_once = expected_seq.iter().all(|w| cnt(*w) == 1) && whos.len() == expected_seq.len();
+                if m == M::RegDispatch && has_tree && whos != expected_seq && all_once && collapse(&whos) == collapse(&expected_seq) {
+                    // F31 (provisional): everybody is told exactly once and the stack elements are
+                    // visited inner before outer, but INSIDE an and_then tree the outer subscriber
+                    // is told before the inner one
+                    st.count("tree_on_register_dispatch_outer_before_inner", 1);
+                    f31.push(Problem {
+                        fid: Some("F31"),
+                        cell: "(method=on_register_dispatch, shape=and_then tree, clause=inner-before-outer)".into(),
+                        what: format!(
+                            "on_register_dispatch reached the layers in the order {} (the property demands inner before outer: {})",
+                            whos.iter().map(|w| w.show()).collect::<Vec<_>>().join(" "),
+                            expected_seq.iter().map(|w| w.show()).collect::<Vec<_>>().join(" ")
+                        ),
+                        seg: si,
+                    });
+                } else if whos != expected_seq {
                     let bad_count = expected_seq.iter().find(|w| cnt(**w) != 1);
                     let what = match bad_count {
                         Some(w) => format!(
@@ -1441,7 +1571,10 @@ fn oracle1(spec: &StackSpec, classes: &[u32], ops: &[Op], run: &RunOut, st: &mut
                     let c = cnt(*w);
                     let class = key.1.map(|c| classes[c]);
                     let must = m == M::RegCallsite && *w != Who::Base && class.map(|c| !any_never(c)).unwrap_or(false);
-                    if c > cap || (must && c != 1) || c > outer {
+                    // (inside an and_then tree an inner `never` only short-circuits its own subtree:
+                    // an outer `sometimes` overrides it and the layers further in are still asked,
+                    // so the "asked no more often than the outer neighbour" clause is list-only)
+                    if c > cap || (must && c != 1) || (!has_tree && c > outer) {
                         prob(None, m, format!("{} was asked {} {} times for one occurrence (outer neighbour: {})", w.show(), m.name(*w), c, if outer == usize::MAX { "-".to_string() } else { outer.to_string() }));
                     }
                     outer = c;
@@ -1678,6 +1811,7 @@ fn oracle1(spec: &StackSpec, classes: &[u32], ops: &[Op], run: &RunOut, st: &mut
             }
         }
     }
+    probs.extend(f31);
     if run.panic.is_none() && close_keys.len() != spans_created {
         probs.push(Problem {
             fid: None,
@@ -1828,6 +1962,7 @@ fn fid_what(fid: &str) -> &'static str {
         "F5" => "Vec<S> forwards neither event_enabled nor on_id_change",
         "F6" => "reload::Subscriber as Filter does not forward event_enabled",
         "F10" => "an empty Vec of layers answers Interest::never / Some(OFF) and silences the whole stack",
+        "F31" => "impl Subscribe for Layered (a.and_then(b)) tells the OUTER subscriber about the new Dispatch before the inner one",
         _ => "?",
     }
 }
@@ -2614,6 +2749,141 @@ fn run_cmp(cmp: &Cmp, tab: &Table, proc_: &mut Proc, st: &mut Stats, out: &mut O
     true
 }
 
+// ------------------------------------------------------------------------------------------
+// tree-shaped stacks: two or more recording layers inside ONE and_then tree (single `.with()`)
+// ------------------------------------------------------------------------------------------
+
+/// shape codes: 'L' leaf, '(' inner ',' outer ')' node
+fn tree_from(code: &str, next: &mut u8, scripts: &mut dyn FnMut(u8) -> Script) -> Tree {
+    fn parse(c: &[u8], pos: &mut usize, next: &mut u8, scripts: &mut dyn FnMut(u8) -> Script) -> Tree {
+        match c[*pos] {
+            b'L' => {
+                *pos += 1;
+                let i = *next;
+                *next += 1;
+                Tree::Leaf(i, scripts(i))
+            }
+            b'(' => {
+                *pos += 1;
+                let a = parse(c, pos, next, scripts);
+                assert_eq!(c[*pos], b',', "HARNESS: bad tree code");
+                *pos += 1;
+                let b = parse(c, pos, next, scripts);
+                assert_eq!(c[*pos], b')', "HARNESS: bad tree code");
+                *pos += 1;
+                Tree::Node(Box::new(a), Box::new(b))
+            }
+            _ => panic!("HARNESS: bad tree code"),
+        }
+    }
+    let mut pos = 0;
+    parse(code.as_bytes(), &mut pos, next, scripts)
+}
+
+const TREE_SHAPES_QUICK: [&str; 4] = ["(L,L)", "((L,L),L)", "(L,(L,L))", "((L,L),(L,L))"];
+const TREE_SHAPES_MORE: [&str; 4] = ["(((L,L),L),L)", "(L,(L,(L,L)))", "((L,L),(L,(L,L)))", "((L,(L,L)),(L,L))"];
+
+#[derive(Clone, Debug)]
+struct TreeCase {
+    base: BaseKind,
+    shape: &'static str,
+    below: usize,
+    above: usize,
+    sv: usize,
+}
+
+fn tree_cases(thorough: bool) -> Vec<TreeCase> {
+    let mut shapes: Vec<&'static str> = TREE_SHAPES_QUICK.to_vec();
+    if thorough {
+        shapes.extend(TREE_SHAPES_MORE);
+    }
+    let mut v = vec![];
+    for base in [BaseKind::Reg, BaseKind::Id] {
+        for shape in &shapes {
+            for below in 0..2 {
+                for above in 0..2 {
+                    for sv in 0..4 {
+                        v.push(TreeCase { base, shape, below, above, sv });
+                    }
+                }
+            }
+        }
+    }
+    v
+}
+
+/// build `base.with(L..).with(tree).with(L..)`; `script_of(i)` gives layer i's script
+fn tree_stack(base: BaseKind, shape: &str, below: usize, above: usize, script_of: &mut dyn FnMut(u8) -> Script) -> StackSpec {
+    let mut spec = StackSpec { base, elems: vec![], cwrap: vec![] };
+    let mut next = 0u8;
+    for _ in 0..below {
+        spec.elems.push(Elem::layer(next, script_of(next)));
+        next += 1;
+    }
+    let t = tree_from(shape, &mut next, script_of);
+    spec.elems.push(Elem::tree(t));
+    for _ in 0..above {
+        spec.elems.push(Elem::layer(next, script_of(next)));
+        next += 1;
+    }
+    spec
+}
+
+fn rand_tree_code(rng: &mut Rng, leaves: usize) -> String {
+    if leaves == 1 {
+        return "L".into();
+    }
+    let left = 1 + rng.usize(leaves - 1);
+    format!("({},{})", rand_tree_code(rng, left), rand_tree_code(rng, leaves - left))
+}
+
+/// one stack, oracle 1 only.  Returns false if the process must stop.
+fn run_single(name: &str, spec: &StackSpec, tab: &Table, ops: &[Op], proc_: &mut Proc, st: &mut Stats, out: &mut Out, idx: &str) -> bool {
+    if !spec.o1_shape() {
+        panic!("HARNESS: run_single needs a stack oracle 1 can judge");
+    }
+    let ra = run_stack(spec, &tab.a, &tab.pre, ops, proc_.retired_for(&tab.pre));
+    proc_.learn(&tab.a, &tab.classes, &ra.ids);
+    st.count("tree_stack_runs", 1);
+    st.count("stack_runs", 1);
+    st.count("ops_driven", ops.len() as u64);
+    st.count("callbacks_recorded", ra.raw_len as u64);
+    let cmp = Cmp { name: name.to_string(), reference: spec.clone(), variant: spec.clone(), ops: ops.to_vec() };
+    if let Some(p) = &ra.panic {
+        out.violation(
+            format!("panic while building/driving the tree-shaped stack: {p}"),
+            json!({"comparison": name, "index": idx, "stack": spec.show(&tab.classes), "callsites": tab.describe(),
+                   "ops": ops.iter().map(|o| format!("{o:?}")).collect::<Vec<_>>()}),
+        );
+        return false;
+    }
+    if !ra.stray.is_empty() {
+        out.violation(
+            "tree-shaped stack: a recorder was called about a callsite other than the one being hit".to_string(),
+            json!({"comparison": name, "index": idx, "stack": spec.show(&tab.classes), "stray": ra.stray}),
+        );
+    }
+    st.count("oracle1_runs", 1);
+    for p in oracle1(spec, &tab.classes, ops, &ra, st) {
+        let w = witness(&cmp, tab, &p, &ra, None, idx);
+        match p.fid {
+            Some(f) => {
+                st.count(&format!("finding_{f}"), 1);
+                out.set("finding_cells", format!("{f} {}", p.cell));
+                out.finding(f, format!("{} - e.g. cell {}: {}", fid_what(f), p.cell, p.what), w);
+            }
+            None => out.violation(format!("cell {}: {}", p.cell, p.what), w),
+        }
+    }
+    if std::env::var("C09_DEBUG").is_ok() {
+        eprintln!("== {} {}\n   stack {}", idx, name, spec.show(&tab.classes));
+        for x in ra.segs.iter() {
+            eprintln!("  {} | {:?}", x.op, x.ents.iter().map(|e| e.show()).collect::<Vec<_>>());
+        }
+    }
+    true
+}
+
 fn child(args: &Args) {
     let thorough = args.tier == vlib::Tier::Thorough;
     let mut out = Out::new();
@@ -2652,6 +2922,60 @@ fn child(args: &Args) {
         st.count("random_comparisons", 1);
         alive = run_cmp(&cmp, &tab, &mut proc_, &mut st, &mut out, &idx);
     }
+    let trees = tree_cases(thorough);
+    for (i, c) in trees.iter().enumerate() {
+        if !alive || i as u64 % args.nshards != args.shard {
+            continue;
+        }
+        let idx = format!("t{i}");
+        if only.as_ref().map(|o| *o != idx).unwrap_or(false) {
+            continue;
+        }
+        let mut rng = Rng::derive(args.seed, 3, i as u64);
+        let tab = proc_.table(&mut rng, &RICH_KINDS);
+        let nl = c.shape.bytes().filter(|b| *b == b'L').count() + c.below + c.above;
+        let special = (i % nl) as u8;
+        let other = ((i / nl + 1 + special as usize) % nl) as u8;
+        let cl = tab.classes.clone();
+        let sv = c.sv;
+        let mut script_of = |k: u8| -> Script {
+            if k == special {
+                sys_script(if sv == 3 { 4 } else { sv }, true, false, nl, &cl).without_hint()
+            } else if k == other && sv == 3 {
+                sys_script(3, false, true, nl, &cl)
+            } else {
+                Script::plain()
+            }
+        };
+        let spec = tree_stack(c.base, c.shape, c.below, c.above, &mut script_of);
+        st.count("systematic_tree_stacks", 1);
+        alive = run_single(&format!("tree {:?}", c), &spec, &tab, &rich_ops(), &mut proc_, &mut st, &mut out, &idx);
+    }
+    let ntree = args.get_u64("random_trees", args.tier.pick(6_000, 60_000));
+    for j in 0..ntree {
+        if !alive || j % args.nshards != args.shard {
+            continue;
+        }
+        let idx = format!("u{j}");
+        if only.as_ref().map(|o| *o != idx).unwrap_or(false) {
+            continue;
+        }
+        let mut rng = Rng::derive(args.seed, 4, j);
+        let kinds = rand_kinds(&mut rng);
+        let tab = proc_.table(&mut rng, &kinds);
+        let nleaves = 2 + rng.usize(if thorough { 4 } else { 3 });
+        let code = rand_tree_code(&mut rng, nleaves);
+        let (below, above) = (rng.usize(2), rng.usize(2));
+        let base = if rng.chance(2, 5) { BaseKind::Id } else { BaseKind::Reg };
+        let cl = tab.classes.clone();
+        let mut r2 = rng.fork();
+        let mut script_of = |_k: u8| -> Script { rand_script(&mut r2, &cl, false) };
+        let spec = tree_stack(base, &code, below, above, &mut script_of);
+        let len = 10 + rng.usize(31);
+        let ops = gen_ops(&mut rng, &kinds, len);
+        st.count("random_tree_stacks", 1);
+        alive = run_single(&format!("random tree #{j}"), &spec, &tab, &ops, &mut proc_, &mut st, &mut out, &idx);
+    }
     out.evals = st.evals;
     for h in st.distinct {
         out.distinct(h);
@@ -2674,6 +2998,9 @@ fn parent(args: &Args) {
     if let Some(r) = args.get("random") {
         spec = spec.arg("random", r);
     }
+    if let Some(r) = args.get("random_trees") {
+        spec = spec.arg("random_trees", r);
+    }
     let ends = run::run_children(args, &spec, &mut out);
     run::classify_ends(&ends, &mut out, true);
     let ncells = out.sets.get("cells").map(|s| s.len()).unwrap_or(0);
@@ -2690,6 +3017,7 @@ fn parent(args: &Args) {
                    tuples resp. (notification kind, base, stack size, script kinds) tuples - measured from the runs",
             assumptions: vec![
                 "recording layers/filters are self-consistent (register_callsite never <=> enabled false; hint h => everything above h rejected)".into(),
+                "tree-shaped stacks (2-5 recording layers inside one and_then tree attached with a single .with(), nesting on both sides, optionally a plain layer below/above) are judged by the same exactly-once/order automaton with leaves ordered inner before outer (a.and_then(b): a before b); on_subscribe is a build-time &mut callback outside the property's list and is only counted".into(),
                 "query methods (register_callsite, enabled, event_enabled) are judged for at-most/exactly-once but not for inner-before-outer order: Layered deliberately asks the outer layer first".into(),
                 "None::<L> as the ONLY element of a Registry stack is not judged (the repository's tests pin 'just a None means everything is off'); with any neighbour it must be invisible".into(),
                 "reload::Subscriber around a layer: on_subscribe and downcasting are documented as unsupported and are masked".into(),
